@@ -385,7 +385,7 @@ class C17(BridgeProp):
             "flag, the set of ports that take datagrams and the set of ports that can be bound again are observed. "
             "distinct = distinct events; non-trivial = observations, datagrams, start/stop outcomes")
     assumptions = BridgeProp.base_assumptions + [
-        "start() while already running: specified as 'raises, nothing changes' (not in the statement's alphabet)",
+        "start() while already running (not in the statement's alphabet): nothing may change; whether it raises is left open",
         "port release is observed on the virtual network (an endpoint closed by the bridge leaves the port table one loop cycle later, "
         "as asyncio's selector transport does); a loopback portion with real sockets is part of the thorough tier",
     ]
